@@ -125,10 +125,37 @@ type renderCfg struct {
 	filter  string
 	match   string
 	rebase  bool
+	html    string // -html <file>: the rendering goes to this file instead of the console
+	banner  bool   // GOTRACEBACK unset: a one-goroutine dump gets the "To see all goroutines" banner
 }
 
 func (c renderCfg) String() string {
-	return fmt.Sprintf("pf=%d colour=%v level=%d filter=%q match=%q", c.pf, c.colour, c.level, c.filter, c.match)
+	s := fmt.Sprintf("pf=%d colour=%v level=%d filter=%q match=%q", c.pf, c.colour, c.level, c.filter, c.match)
+	if c.html != "" {
+		s += " html"
+	}
+	if c.banner {
+		s += " banner"
+	}
+	return s
+}
+
+// withEnv runs f with GOTRACEBACK set the way the configuration asks for.
+func (c renderCfg) withEnv(f func()) {
+	old, had := os.LookupEnv("GOTRACEBACK")
+	if c.banner {
+		os.Unsetenv("GOTRACEBACK")
+	} else {
+		os.Setenv("GOTRACEBACK", "all")
+	}
+	defer func() {
+		if had {
+			os.Setenv("GOTRACEBACK", old)
+		} else {
+			os.Unsetenv("GOTRACEBACK")
+		}
+	}()
+	f()
 }
 
 // pathStyle is the harness's own name for the three path formats.
@@ -230,6 +257,9 @@ func cfgFlags(c renderCfg, parse bool) []string {
 	if !parse {
 		f = append(f, "-parse=false")
 	}
+	if c.html != "" {
+		f = append(f, "-html", c.html)
+	}
 	return f
 }
 
@@ -239,6 +269,16 @@ func processViaBinary(in io.Reader, out io.Writer, c renderCfg, parse bool) erro
 		return fmt.Errorf("verif: no pp binary")
 	}
 	cmd := ppCommand(pp, cfgFlags(c, parse)...)
+	cmd.Env = os.Environ()
+	if c.banner {
+		var e []string
+		for _, kv := range cmd.Env {
+			if !strings.HasPrefix(kv, "GOTRACEBACK=") {
+				e = append(e, kv)
+			}
+		}
+		cmd.Env = e
+	}
 	cmd.Stdin = in
 	cmd.Stdout = out
 	var se bytes.Buffer
@@ -305,7 +345,7 @@ func watchedProcess(key string, in io.Reader, c renderCfg, parse bool) processRe
 			r.out = buf.String()
 			ch <- r
 		}()
-		r.err = processFn(in, &buf, c, parse)
+		c.withEnv(func() { r.err = processFn(in, &buf, c, parse) })
 	}()
 	select {
 	case r := <-ch:
